@@ -88,6 +88,8 @@ def abstract(spec, obs=None):
         return (it in nodes) if kd == 0 else ((it in edges) if kd == 1 else False)
     a["cons"] = [[isinstance(c, list), len(c), [[item_kind(it), ingraph(it)] for it in c]] for c in spec["cons"]]
     a["cov"] = common.qtok(spec["cov"])
+    a["cov_len"] = [0] if spec.get("cov_len") is None else [1] + common.qtok(spec["cov_len"])
+    a["len_attr"] = bool(spec.get("len_attr"))
     a["starts"] = [x in nodes for x in spec["starts"]]; a["ends"] = [x in nodes for x in spec["ends"]]
     a["ign"] = [[item_kind(it), ingraph(it)] for it in spec["ign"]]
     # Min* classes: did the k-loop of solve() construct a k-model?  Read off the observed run; if an exception
@@ -102,7 +104,7 @@ def tokens(spec, a):
     return "validate " + common.toks(
         ci.CLS_ID[spec["cls"]], len(a["nodes_str"]), a["nodes_str"], a["n_edges"], a["acyclic"], a["has_source"], a["has_sink"],
         a["origin"], a["wtype"], len(a["elems"]), a["elems"], a["conserving"], a["k"],
-        len(a["cons"]), a["cons"], a["cov"], len(a["starts"]), a["starts"], len(a["ends"]), a["ends"], len(a["ign"]), a["ign"],
+        len(a["cons"]), a["cons"], a["cov"], a["cov_len"], a["len_attr"], len(a["starts"]), a["starts"], len(a["ends"]), a["ends"], len(a["ign"]), a["ign"],
         a["search_enters"])
 
 
@@ -192,6 +194,9 @@ def applicable(cls, v, spec):
     return True
 
 
+INPLACE = ("neg", "missing", "noncons", "cycle", "nosource", "nosink", "nonstr")
+
+
 def make_cases(ctx, n_valid, n_pairs):
     """yields (stream, cls, idx, violations, spec); stream in valid | single | pair | outside"""
     for cls in ci.ALL_CLASSES:
@@ -215,6 +220,9 @@ def make_cases(ctx, n_valid, n_pairs):
                 if v == "noncons" and conserving(s):
                     continue
                 yield ("single", cls, i, [v], s)
+                # the same violation made IN PLACE on the graph object with which a valid model was built and solved before
+                if v in INPLACE and i % 3 == 0:
+                    yield ("inplace", cls, i, [v], s, base)
         allpairs = list(itertools.combinations(vs, 2))
         for j in range(n_pairs):
             rng = ctx.rng("pair:" + cls, j)
@@ -240,12 +248,21 @@ def run(ctx):
     ctx.rule = ("case = (class, valid input, list of violation kinds applied); valid inputs: random DAG (<=5 nodes) / cyclic "
                 "digraph (<=6 nodes), flows = superposition of <=4 weighted source-to-sink routes, constraints cut from those routes, "
                 "ignore lists, additional starts/ends, edge or node weights; every single violation kind of the class on every valid "
-                "input plus sampled pairs; non-trivial = at least one violation applied or a valid input with constraints / ignore "
+                "input (graph violations also made IN PLACE on the graph object a valid model was built from before) plus sampled pairs; non-trivial = at least one violation applied or a valid input with constraints / ignore "
                 "list / node weights; distinct by (class, abstract input)")
     n_valid = ctx.budget(14, 150); n_pairs = ctx.budget(80, 1500)
     cases = []
-    for (stream, cls, idx, viols, spec) in make_cases(ctx, n_valid, n_pairs):
-        r = ci.observe(spec)                      # run the implementation first: the abstraction reads `inner` off it
+    for case in make_cases(ctx, n_valid, n_pairs):
+        (stream, cls, idx, viols, spec) = case[:5]
+        if stream == "inplace":
+            G = ci.build_graph(case[5])
+            r0 = ci.observe(case[5], G)           # a valid model on this very graph object first (constructed and solved)
+            if r0 is None or r0["ctor"] or r0["solve"]:
+                continue
+            ci.sync_graph(G, spec)                # now make the graph invalid in place
+            r = ci.observe(spec, G)
+        else:
+            r = ci.observe(spec)                  # run the implementation first: the abstraction reads `inner` off it
         if r is None:
             continue
         a = abstract(spec, r)
